@@ -93,6 +93,11 @@ Proof. exact reader_independence_any_state. Qed.
 Theorem C18_reader_independence_shipped :
   forall data sched eofd, octets data -> sms_unmarshal_reader data sched eofd = sms_unmarshal data.
 Proof. exact sms_unmarshal_reader_eq. Qed.
+(* sharper: only the first octet is looked at - [peekable data]: the list is empty or its first element + 3 <= 4096 *)
+Theorem C18_reader_independence_first_octet :
+  forall (legacy : bool) (E : env) (data : bytes) (sched : list nat) (eofd : bool), peekable data ->
+    unmarshal_gen_on legacy E (new_reader data sched eofd) = unmarshal_gen legacy E data.
+Proof. exact unmarshal_gen_new_reader_eq. Qed.
 Theorem C18_unmarshal_never_panics_any_reader :
   forall E, env_ok E -> forall data sched eofd, octets data -> unmarshal_reader E data sched eofd <> Panic.
 Proof. exact unmarshal_reader_never_panics. Qed.
